@@ -112,7 +112,8 @@ let () =
          (match !synth_desc with
           | Some dsc ->
               (match synth_requests_diff (bytes_of_string dsc) p.pd.t_filters (Stdlib.List.rev !synth_obs) with
-               | Some None -> print_endline ("synthreq ok n=" ^ string_of_int (Stdlib.List.length !synth_obs))
+               | Some None -> print_endline ("synthreq ok n=" ^ string_of_int (Stdlib.List.length !synth_obs)
+                                             ^ (match synth_hyp_of_desc (bytes_of_string dsc) with Some true -> " hyp=1" | Some false -> " hyp=0" | None -> " hyp=-"))
                | Some (Some k) -> print_endline ("synthreq DIFF first=" ^ string_of_int (int_of_nat k) ^ " of " ^ string_of_int (Stdlib.List.length !synth_obs))
                | None -> print_endline "synthreq DIFF model-rejects-description")
           | None -> ());
